@@ -477,6 +477,123 @@ def rule_budget(repo, tier):
     return res
 
 
+@guarded
+def rule_cgrec(repo, tier):
+    """Roles in the conjugate-gradient recurrence.  The stopping clause of the property is about the TRUE residual: |b - A x| <= tol |b|.
+      * the residual variable is the one the loop decreases by alpha * (A p); it starts as b (no guess) or b - A x0: b with even, A x0 with odd parity;
+      * the quantity compared with the threshold tol |b| is the norm of that residual variable itself - not of the preconditioned residual z = M r,
+        nor sqrt(r^T z), which weigh it by the preconditioner;
+      * x moves by + alpha p, r by - alpha q, with q = A p."""
+    from ..expr import parities
+    res = RuleResult('C10.CGREC', 'CG recurrence roles: r0 = b - A x0 (b even, A x0 odd parity), the convergence test compares the norm of the residual r itself '
+                     '(not a preconditioner-weighted quantity) with tol |b|, x += alpha p and r -= alpha A p', floor=4)
+    f = repo.func(SOLVER, 'CG.forward')
+    pp_ = f.pos_params
+    aname, bname, xname = pp_[1], pp_[2], pp_[3] if len(pp_) > 3 else 'x'
+    loops = [n for n in ast.walk(f.node) if isinstance(n, ast.For)]
+    if not loops:
+        raise AnalysisError('C10.CGREC: CG.forward has no iteration loop')
+    loop = loops[0]
+    # in-place updates inside the loop:  v += e / v -= e / v.add_(e) / v.sub_(e)
+    upd = {}
+    for n in ast.walk(loop):
+        if isinstance(n, ast.AugAssign) and isinstance(n.target, ast.Name) and isinstance(n.op, (ast.Add, ast.Sub)):
+            upd.setdefault(n.target.id, []).append((0 if isinstance(n.op, ast.Add) else 1, n.value, n))
+        elif isinstance(n, ast.Expr) and isinstance(n.value, ast.Call) and isinstance(n.value.func, ast.Attribute) and n.value.func.attr in ('add_', 'sub_') \
+                and isinstance(n.value.func.value, ast.Name) and n.value.args:
+            upd.setdefault(n.value.func.value.id, []).append((0 if n.value.func.attr == 'add_' else 1, n.value.args[0], n))
+    # q = A p : torch.matmul(A, p, out=q) or q = A @ p
+    qnames = set()
+    for n in ast.walk(loop):
+        if isinstance(n, ast.Call) and dotted(n.func) in ('torch.matmul', 'torch.mm') and len(n.args) >= 2 and dotted(n.args[0]) == aname:
+            for k in n.keywords:
+                if k.arg == 'out' and isinstance(k.value, ast.Name):
+                    qnames.add(k.value.id)
+        if isinstance(n, ast.Assign) and len(n.targets) == 1 and isinstance(n.targets[0], ast.Name):
+            v = n.value
+            if (isinstance(v, ast.BinOp) and isinstance(v.op, ast.MatMult) and dotted(v.left) == aname) or \
+                    (isinstance(v, ast.Call) and dotted(v.func) in ('torch.matmul', 'torch.mm') and v.args and dotted(v.args[0]) == aname):
+                qnames.add(n.targets[0].id)
+    rname = None
+    for v_, ups in upd.items():
+        for sign, val, node in ups:
+            if any(isinstance(y, ast.Name) and y.id in qnames for y in ast.walk(val)):
+                rname = v_
+                res.inst({'function': f.fq, 'clause': 'residual update', 'statement': src(node)[:50], 'sign': '-' if sign else '+', 'ok': sign == 1}, 'rupd')
+                if sign != 1:
+                    res.add(Finding('C10.CGREC', f, '`%s`: the residual must DECREASE by alpha * (A p)' % src(node)[:50], node=node))
+    if rname is None:
+        raise AnalysisError('C10.CGREC: no residual update by alpha * (A p) found in the CG loop')
+    # solution update
+    xs = upd.get(xname, [])
+    okx = bool(xs) and all(sign == 0 for sign, _, _ in xs)
+    res.inst({'function': f.fq, 'clause': 'solution update', 'statements': [src(n_)[:40] for _, _, n_ in xs], 'ok': okx}, 'xupd')
+    if not okx:
+        res.add(Finding('C10.CGREC', f, 'the solution is not advanced by + alpha * p (%s)' % [src(n_)[:40] for _, _, n_ in xs], node=xs[0][2] if xs else loop,
+                        construct='solution update'))
+    # initial residual
+    init = [n for n in f.node.body if isinstance(n, ast.Assign) and any(isinstance(t, ast.Name) and t.id == rname for t in n.targets)]
+    if not init:
+        raise AnalysisError('C10.CGREC: the residual `%s` has no initial assignment before the loop' % rname)
+
+    def alts(e):
+        return alts(e.body) + alts(e.orelse) if isinstance(e, ast.IfExp) else [e]
+
+    def norm_sub(e):
+        """X.sub_(Y) / X.sub(Y) / torch.sub(X, Y) -> X - Y  (so that the parity walk sees the subtraction)"""
+        class T(ast.NodeTransformer):
+            def visit_Call(self, n):
+                n = self.generic_visit(n)
+                if isinstance(n.func, ast.Attribute) and n.func.attr in ('sub_', 'sub') and len(n.args) == 1 and not (dotted(n.func) or '').startswith('torch.'):
+                    return ast.BinOp(n.func.value, ast.Sub(), n.args[0])
+                if isinstance(n.func, ast.Attribute) and n.func.attr in ('add_', 'add') and len(n.args) == 1 and not (dotted(n.func) or '').startswith('torch.'):
+                    return ast.BinOp(n.func.value, ast.Add(), n.args[0])
+                if dotted(n.func) == 'torch.sub' and len(n.args) == 2:
+                    return ast.BinOp(n.args[0], ast.Sub(), n.args[1])
+                if isinstance(n.func, ast.Attribute) and n.func.attr in ('neg', 'neg_') and not n.args:
+                    return ast.UnaryOp(ast.USub(), n.func.value)
+                return n
+        import copy
+        return T().visit(copy.deepcopy(e))
+    for a_ in alts(init[-1].value):
+        a2 = norm_sub(a_)
+        pb = parities(a2, lambda y: isinstance(y, ast.Name) and y.id == bname)
+        isAx = lambda y: (isinstance(y, ast.BinOp) and isinstance(y.op, ast.MatMult) and dotted(y.left) == aname) or \
+            (isinstance(y, ast.Call) and dotted(y.func) in ('torch.matmul', 'torch.mm') and y.args and dotted(y.args[0]) == aname)
+        pa = parities(a2, isAx)
+        ok = pb == {0} and pa in (set(), {1})
+        res.inst({'function': f.fq, 'clause': 'initial residual', 'alternative': src(a_)[:50], 'parity of b': sorted(pb, key=str), 'parity of A x0': sorted(pa, key=str), 'ok': ok},
+                 ('r0', src(a_)[:50]))
+        if not ok:
+            res.add(Finding('C10.CGREC', f, 'the initial residual `%s` is not b - A x0 (b enters with parity %s, A x0 with parity %s; needed: even, odd): the recurrence then '
+                            'converges to 2 x0 - x*' % (src(a_)[:50], sorted(pb, key=str), sorted(pa, key=str)), node=init[-1], construct='initial residual|' + src(a_)[:40]))
+    # convergence test
+    tests = []
+    for n in ast.walk(loop):
+        if isinstance(n, ast.If) and any(isinstance(x, ast.Return) for st in n.body for x in ast.walk(st)):
+            tests.append(n)
+    if not tests:
+        raise AnalysisError('C10.CGREC: no convergence exit in the CG loop')
+    for t in tests:
+        cmp_ = [c for c in ast.walk(t.test) if isinstance(c, ast.Compare)]
+        ok = False
+        what = src(t.test)[:60]
+        for c in cmp_:
+            lhs = c.left
+            # norm(r) / r.norm() / (r * r).sum().sqrt() / r.square().sum().sqrt()
+            names = {y.id for y in ast.walk(lhs) if isinstance(y, ast.Name)} - {'torch'}
+            is_norm = any(isinstance(y, ast.Call) and ((dotted(y.func) or '').split('.')[-1] in ('norm', 'vector_norm') or
+                                                        (isinstance(y.func, ast.Attribute) and y.func.attr in ('norm', 'sqrt'))) for y in ast.walk(lhs))
+            if is_norm and names == {rname}:
+                ok = True
+        res.inst({'function': f.fq, 'clause': 'convergence test on the residual itself', 'test': what, 'ok': ok}, ('conv', what))
+        if not ok:
+            res.add(Finding('C10.CGREC', f, 'the convergence exit `%s` does not compare the norm of the residual `%s` itself with the threshold: a preconditioner-weighted '
+                            'quantity (sqrt(r^T M r), |M r|) can be far below |b - A x|, and CG returns before |b - A x| <= tol |b|' % (what, rname), node=t,
+                            construct='convergence test'))
+    return res
+
+
 def rule_conf(repo, tier):
     """history independence of the solver modules: an attribute configured by the constructor is never rebound in forward() from data of the
     current call (sizes, tensors) - the next call, on another system, would inherit it (e.g. an iteration budget frozen at the first system's 10n)"""
@@ -536,7 +653,7 @@ def _rules_core(repo, tier):
     from ..effects import rule_pure
     from ..outalias import rule_outalias
     return [rule_status(repo, tier), rule_lstsq(repo, tier), rule_zero(repo, tier), rule_stale(repo, 'C10.STALE', [(SOLVER, 'CG.forward')]),
-            rule_idx(repo, tier), rule_dispatch(repo, tier), rule_tri(repo, tier), rule_conf(repo, tier), guarded(rule_guess)(repo, tier), guarded(rule_budget)(repo, tier),
+            rule_idx(repo, tier), rule_dispatch(repo, tier), rule_tri(repo, tier), rule_conf(repo, tier), guarded(rule_guess)(repo, tier), guarded(rule_budget)(repo, tier), rule_cgrec(repo, tier),
             rule_outalias(repo, 'C10.OUT', [(SOLVER, 'CG.forward')]),
             rule_pure(repo, 'C10.PURE', 'no solver writes into the matrix, right-hand side, initial guess or preconditioner it is given: a caller that '
                       'solves again with the same tensors (damping retries, warm starts) solves the same system',
